@@ -73,11 +73,45 @@ def chain(seed, k, tier):
     return s
 
 
+def all_assets_chain(seed, name="c14-allassets"):
+    """Every ticker of the protocol is held by some staker across two snapshots, every asset at a different rate, total stake below
+    the cap: each payout is the exact USD value of the holder's assets, so any confusion between two balance columns shows."""
+    rnd = random.Random(seed * 271 + 9)
+    assets = list(scen.ALL_TICKERS)
+    rates = scen.distinct_rates(assets)
+    s = scen.Scn(name, sched=dict(scen.LIVE, OneWaySmall=20), seed=seed * 10 + 7, assets=assets)
+    users = [s.key("A%d" % i) for i in range(1, 9)]
+    h = 4
+    s.grade(h, spr=False, rates=rates); h += 1
+    s.grade(h, rates=rates); h += 1
+    s.grade(h, rates=rates); h += 1
+    s.grade(h, rates=rates)
+    for i, u in enumerate(users):
+        s.transfer(h, scen.MINERS[i], "PEG", [(u, 1000 * 10**8)])
+    h += 1
+    s.grade(h, rates=rates)
+    others = [t for t in assets if t != "PEG"]
+    for i, u in enumerate(users):
+        mine = [t for j, t in enumerate(others) if j % len(users) == i]
+        s.entry(h, u, [{"t": "PEG", "amt": (5 + rnd.randint(0, 40)) * 10**8, "conv": t} for t in mine])
+    h += 1
+    s.grade(h, rates=rates)
+    for hh in (143, 144, 145, 200, 287, 288, 289):
+        s.grade(hh, rates=rates)
+    # a movement between the snapshots for the minimum rule, in assets that sit next to each other in the balance table
+    s.transfer(200, users[0], others[0], [(users[1], 1000)], track=False)
+    s.transfer(200, users[5], others[5 + 16], [(users[6], 77)], track=False)
+    s.tip(290)
+    return s
+
+
 def family(seed, tier):
     n = 5 if tier == "quick" else 15
     docs = [(lambda s: (s.s["name"], s.doc()))(chain(seed, k, tier)) for k in range(n)]
     g = scen.snapshot_gap_chain(seed, name="c14-snapgap")
     docs.append((g.s["name"], g.doc()))
+    a = all_assets_chain(seed)
+    docs.append((a.s["name"], a.doc()))
     return docs
 
 
@@ -86,7 +120,7 @@ def main():
         rule="chains crossing the snapshot heights 144 and 288 (432 in thorough) with seeded holdings of three non-PEG assets over 8 addresses, movements "
              "between the snapshots (funds leaving, funds arriving late, an address created after the first snapshot, a transfer in the snapshot block), exact "
              "ties, total stake far below and far above 4,500 PEG x 144 (PEG price decides), a zero-rate asset and a snapshot height without rates, before and "
-             "after 2.0.2; TLC recomputes stake_i from MIN(past, current), the floor shares, the dust and its admissible recipients, and compares PEG deltas "
+             "after 2.0.2, and one chain in which every one of the 61 non-PEG tickers is held by some staker at a rate of its own; TLC recomputes stake_i from MIN(past, current), the floor shares, the dust and its admissible recipients, and compares PEG deltas "
              "and both snapshot tables; non-trivial = every chain (each has a paying snapshot or a deliberate no-pay case)",
         corrupt=lcheck.corrupt_balance)
 
